@@ -198,9 +198,9 @@ def run(ctx):
             cases.append({'archs': [a, b], 'mode': 'text' if (ORDER.index(a) + ORDER.index(b)) % 2 else 'json', 'threads': 1, 'choices': [0]})
         # ... and a seeded third of them with two threads under a generated interleaving
         for a, b in pairs:
-            if rng.random() < 0.34:
+            if True:
                 cases.append({'archs': [a, b], 'mode': rng.choice(['text', 'json']), 'threads': 2, 'choices': [rng.randint(0, 1) for _ in range(24)]})
-        for a, b in rng.sample(pairs, 40):
+        for a, b in rng.sample(pairs, 150):
             cases.append({'archs': [a, b], 'mode': rng.choice(['policy', 'policy-json']), 'threads': rng.choice([1, 2]), 'choices': [rng.randint(0, 1) for _ in range(12)]})
     else:
         for a, b in pairs:
@@ -213,7 +213,7 @@ def run(ctx):
                 k = rng.choice([1, 2, 3])
                 cases.append({'archs': list(tr), 'mode': rng.choice(['text', 'json']), 'threads': k, 'choices': [rng.randint(0, 2) for _ in range(30)]})
     ctx.map(cases)
-    ctx.hyp('strat_history', 300 if ctx.quick else 6000, label=1, shards=16)
+    ctx.hyp('strat_history', 2500 if ctx.quick else 30000, label=1, shards=16)
     # free-running threads (no scheduler): the real pool decides
     free = []
     for a, b, c in rng.sample(list(itertools.permutations(ORDER, 3)), 30 if ctx.quick else 400):
